@@ -617,3 +617,38 @@ def disabled_updates_leave_the_groups_alone(B1: float, bu: float, T: float, g0: 
     b = env_block(bu, T, g0)
     m._updateEnvironmentGroups([b])
     assert b.p.envGroupNum == g0
+
+
+class Holder:
+    """r / r.blueprints stand-in: only blueprints.allNuclidesInProblem is read"""
+
+
+XS_IDS = ["AA", "AB", "BA"]
+
+
+@lemma(gen={"n": [1, 2, 3], "i1": [0, 1, 2], "i2": [0, 1, 2], "i3": [0, 1, 2]})
+def blocks_are_partitioned_by_their_xs_id(n: int, i1: int, i2: int, i3: int, median: bool):
+    """_addXsGroupsFromBlocks (with blockCollectionFactory and the real collection constructors): 1..3 blocks whose
+    XS ids (type letter + environment letter, Block.getMicroSuffix) are drawn from AA, AB, BA in every combination
+    (enumerated); environment-group refresh switched off (proved separately above)"""
+    n = choose(n, 1, 3)
+    ids = [XS_IDS[choose(i, 0, 2)] for i in [i1, i2, i3][:n]]
+    opts = {}
+    for x in XS_IDS:
+        opts[x] = new(XsOpts, xsTempIsotope=None, blockRepresentation=xsgm.MEDIAN_BLOCK_COLLECTION if median else xsgm.AVERAGE_BLOCK_COLLECTION,
+                      validBlockTypes=None, averageByComponent=False, ductHeterogeneous=False)
+    m = new(CrossSectionGroupManager, _envGroupUpdatesEnabled=False, _buGroupBounds=[1.0], _tempGroupBounds=[1.0],
+            cs={xsgm.CONF_CROSS_SECTION: opts, "tempGroups": []}, r=new(Holder, blueprints=new(Holder, allNuclidesInProblem=NUCS)))
+    blocks = []
+    for x in ids:
+        b = env_block(0.0, 20.0, 0)
+        b.xsID = x
+        blocks.append(b)
+    groups = m._addXsGroupsFromBlocks({}, blocks)
+    assert sum(len(groups[x]) for x in groups) == n, "no block is lost or listed twice"
+    for b in blocks:
+        assert sum(1 for x in groups for c in groups[x] if same(c, b)) == 1, "every block is in exactly one group"
+        assert any(same(c, b) for c in groups[b.xsID]), "namely the group of its XS type and environment group"
+    for x in groups:
+        assert len(groups[x]) > 0 and all(c.xsID == x for c in groups[x]), "a group holds only blocks of its id"
+        assert isinstance(groups[x], xsgm.MedianBlockCollection if median else xsgm.AverageBlockCollection)
